@@ -516,6 +516,212 @@ def gen_evt():
         gen_evt_method(cls, "as_circuit", "circuit", "gen_evt_circ")
 
 
+# ---------------------------------------------------------------------------------- setters, getter effects
+ARG_NORMALISE = ("if len(args) == 1 and isinstance(args[0], Sequence):\n    %s = list(args[0])\nelse:\n    %s = list(args)")
+PATTR = {"theta": "upd_theta", "encoding_qubits": "upd_enc", "auxiliary_qubits": "upd_aux", "method": "upd_method"}
+
+
+class SetterTr:
+    """body of a setter -> Coq term of type (state) for the state variable `st`.
+    values: names bound to the call's argument; conditions: comparisons of `self.method` / a method parameter with
+    'auxiliary' (modelled as a bool: true = 'auxiliary')"""
+
+    def __init__(self, arg_names, method_params=()):
+        self.args = set(arg_names)            # python names that denote the argument of the call
+        self.mparams = set(method_params)     # python names of parameters holding a method string
+
+    def cond(self, e, cur):
+        if isinstance(e, ast.Compare) and len(e.ops) == 1 and isinstance(e.comparators[0], ast.Constant) \
+                and e.comparators[0].value == "auxiliary":
+            l = up(e.left)
+            if l == "self.method":
+                t = "(ps_auxm %s)" % cur
+            elif l in self.mparams:
+                t = l
+            else:
+                raise Unsupported("condition on %s" % l)
+            if isinstance(e.ops[0], ast.Eq):
+                return t
+            if isinstance(e.ops[0], ast.NotEq):
+                return "(negb %s)" % t
+        raise Unsupported("setter condition %s" % up(e)[:80])
+
+    def value(self, e):
+        s = up(e)
+        if s in self.args or s in self.mparams:
+            return s if s in self.mparams else "arg"
+        if isinstance(e, ast.Call) and up(e.func) == "list" and len(e.args) == 1 and up(e.args[0]) in self.args:
+            return "arg"
+        if s == "[]":
+            return "[]"
+        raise Unsupported("setter value %s" % s[:80])
+
+    def stmts(self, sts, cur):
+        """-> Coq term for the state after the statements (st-valued)"""
+        if not sts:
+            return cur
+        st, rest = sts[0], sts[1:]
+        if is_raise_guard(st):
+            return self.stmts(rest, cur)
+        if isinstance(st, ast.Return):
+            if st.value is not None and up(st.value) != "self":
+                raise Unsupported("setter returns %s" % up(st.value)[:60])
+            return cur
+        if isinstance(st, ast.If):
+            txt = up(st)
+            for nm in ("encoding_qubits", "auxiliary_qubits"):
+                if txt == ARG_NORMALISE % (nm, nm):
+                    self.args.add(nm)          # the local is the (normalised) argument
+                    return self.stmts(rest, cur)
+            c = self.cond(st.test, cur)
+            if st.orelse:
+                raise Unsupported("setter: if/else %s" % txt[:80])
+            if len(st.body) == 1 and isinstance(st.body[0], ast.Return):
+                self.stmts(st.body, cur)
+                return "(if %s then %s else %s)" % (c, cur, self.stmts(rest, cur))
+            inner = self.stmts(st.body, cur)
+            return "(let st1 := (if %s then %s else %s) in %s)" % (c, inner, cur, self.stmts(rest, "st1").replace("st1", "st1"))
+        if isinstance(st, ast.Assign) and len(st.targets) == 1:
+            t = st.targets[0]
+            if isinstance(t, ast.Attribute) and up(t.value) == "self" and t.attr in PATTR:
+                new = "(%s %s %s)" % (PATTR[t.attr], self.value(st.value), cur)
+                return "(let st2 := %s in %s)" % (new, self.stmts(rest, "st2"))
+        raise Unsupported("setter statement %s" % up(st)[:80])
+
+
+def gen_pcps_setters():
+    cls = find_class(parse(F_PCPS), "ProjectorControlledPhaseShift")
+
+    def params(fn):
+        return [a.arg for a in fn.args.args[1:]], (fn.args.vararg.arg if fn.args.vararg else None)
+    out = {}
+    fn = find_func(cls, "set_theta")
+    if params(fn) != (["theta"], None):
+        raise Unsupported("set_theta parameters")
+    out["st_theta"] = "fun (arg : Q) (st : pstate) => %s" % SetterTr({"theta"}).stmts(body_nodoc(fn), "st")
+    for nm, field in (("set_encoding_qubits", "st_enc"), ("set_auxiliary_qubits", "st_aux")):
+        fn = find_func(cls, nm)
+        if params(fn) != ([], "args"):
+            raise Unsupported("%s parameters" % nm)
+        out[field] = "fun (arg : list nat) (st : pstate) => %s" % SetterTr(set()).stmts(body_nodoc(fn), "st")
+    fn = find_func(cls, "set_method")
+    if params(fn) != (["method"], None):
+        raise Unsupported("set_method parameters")
+    out["st_method"] = "fun (method : bool) (st : pstate) => %s" % SetterTr(set(), {"method"}).stmts(body_nodoc(fn), "st")
+    return ("Definition gen_pcps_setters : pcps_setters := {|\n"
+            + ";\n".join("  %s := %s" % (k, out[k]) for k in ("st_theta", "st_enc", "st_aux", "st_method")) + " |}.\n")
+
+
+def gen_evt_setters():
+    cls = find_class(parse(F_EVT), "EigenvalueTransformation")
+    out = {}
+    # set_theta_seq: both branches of `if theta_seq is not None` store the argument (a list in the model)
+    fn = find_func(cls, "set_theta_seq")
+    body = body_nodoc(fn)
+    ok = (len(body) == 1 and isinstance(body[0], ast.If) and up(body[0].test) == "theta_seq is not None"
+          and [up(s) for s in body[0].body] == ["self.theta_seq = list(theta_seq)"]
+          and [up(s) for s in body[0].orelse] == ["self.theta_seq = theta_seq"])
+    if not ok:
+        raise Unsupported("set_theta_seq: unexpected body")
+    out["et_seq"] = "fun (arg : list Q) (st : estate) => upd_seq arg st"
+    DELEG = {"self.processing.set_encoding_qubits": "upd_proc (st_enc gen_pcps_setters arg (es_proc %s)) %s",
+             "self.processing.set_auxiliary_qubits": "upd_proc (st_aux gen_pcps_setters arg (es_proc %s)) %s",
+             "self.processing.set_method": "upd_proc (st_method gen_pcps_setters arg (es_proc %s)) %s",
+             "self.block_encoding.set_auxiliary_qubits": "upd_benc arg %s"}
+    for nm, field, ty in (("set_encoding_qubits", "et_enc", "list nat"), ("set_auxiliary_qubits", "et_anc", "list nat"),
+                          ("set_method", "et_method", "bool")):
+        fn = find_func(cls, nm)
+        ps = [a.arg for a in fn.args.args[1:]]
+        if len(ps) != 1 or fn.args.vararg:
+            raise Unsupported("%s parameters" % nm)
+        cur = "st"
+        for k, st in enumerate(body_nodoc(fn)):
+            c = st.value if isinstance(st, ast.Expr) and isinstance(st.value, ast.Call) else None
+            if c is None or up(c.func) not in DELEG or len(c.args) != 1 or up(c.args[0]) != ps[0] or c.keywords:
+                raise Unsupported("%s: unexpected statement %s" % (nm, up(st)[:80]))
+            tmpl = DELEG[up(c.func)]
+            cur = "(" + (tmpl % ((cur,) * tmpl.count("%s"))) + ")"
+        out[field] = "fun (arg : %s) (st : estate) => %s" % (ty, cur)
+    return ("Definition gen_evt_setters : evt_setters := {|\n"
+            + ";\n".join("  %s := %s" % (k, out[k]) for k in ("et_seq", "et_enc", "et_anc", "et_method")) + " |}.\n")
+
+
+MUTATORS = {"append", "extend", "insert", "pop", "remove", "clear", "update", "sort", "reverse", "setdefault", "add",
+            "discard", "popitem", "fill", "resize", "put", "itemset", "__setitem__", "__setattr__", "__delitem__"}
+
+
+def root_self(e):
+    while isinstance(e, (ast.Attribute, ast.Subscript, ast.Call)):
+        e = e.func if isinstance(e, ast.Call) else e.value
+    return isinstance(e, ast.Name) and e.id == "self"
+
+
+def getter_effects(cls, meth, allowed_calls=()):
+    """what a getter does to `self`: (list of stores / mutating calls on self.*, is the returned object built in the call)"""
+    fn = find_func(cls, meth)
+    stores, aliases = [], set()
+    for n in ast.walk(fn):
+        tgts = []
+        if isinstance(n, ast.Assign):
+            tgts = n.targets
+            if isinstance(n.value, (ast.Attribute, ast.Subscript)) and root_self(n.value):
+                for t in n.targets:
+                    if isinstance(t, ast.Name):
+                        aliases.add(t.id)           # a local that IS an object stored in self
+        elif isinstance(n, (ast.AugAssign, ast.AnnAssign)):
+            tgts = [n.target]
+        elif isinstance(n, ast.Delete):
+            tgts = n.targets
+        for t in tgts:
+            for el in (t.elts if isinstance(t, (ast.Tuple, ast.List)) else [t]):
+                if not isinstance(el, ast.Name) and (root_self(el) or (isinstance(el, (ast.Attribute, ast.Subscript))
+                                                                       and up(el).split(".")[0].split("[")[0] in aliases)):
+                    stores.append(up(el))
+        if isinstance(n, ast.Call):
+            f = n.func
+            if isinstance(f, ast.Attribute) and root_self(f.value) and up(f) not in allowed_calls \
+                    and (f.attr in MUTATORS or f.attr.startswith("set_")):
+                stores.append(up(f) + "(...)")
+            if isinstance(f, ast.Name) and f.id in ("setattr", "delattr") and n.args and root_self(n.args[0]):
+                stores.append(up(n)[:60])
+    fresh = True
+    rets = [n for n in ast.walk(fn) if isinstance(n, ast.Return)]
+    if not rets:
+        fresh = False
+    for r in rets:
+        if not isinstance(r.value, ast.Name) or r.value.id in aliases or r.value.id == "self":
+            fresh = False
+    return stores, fresh
+
+
+def hist_facts():
+    """-> {name: (kind 'GFresh'|'GReuse', detail)} for the two classes"""
+    pc = find_class(parse(F_PCPS), "ProjectorControlledPhaseShift")
+    ev = find_class(parse(F_EVT), "EigenvalueTransformation")
+    out = {}
+    for key, cls, allowed in (("pcps", pc, ()), ("evt", ev, ("self.processing.set_theta",))):
+        det, kind = [], "GFresh"
+        for meth in ("as_circuit", "as_matrix"):
+            stores, fresh = getter_effects(cls, meth, allowed)
+            if stores:
+                det.append("%s stores into %s" % (meth, ", ".join(sorted(set(stores)))))
+            if not fresh:
+                det.append("%s returns an object that is not a local built in the call" % meth)
+            if stores or not fresh:
+                kind = "GReuse"
+        out[key] = (kind, "; ".join(det) or "as_circuit / as_matrix store nothing into self and return a local built in the call")
+    return out
+
+
+def generate_hist():
+    facts = hist_facts()
+    return ("(* generated by gen/qubitization.py from %s and %s -- do not edit *)\n"
+            "From Qib Require Import Qubitization.HistModel.\n\n" % (F_PCPS, F_EVT)
+            + gen_pcps_setters() + "\n" + gen_evt_setters() + "\n"
+            + "(* %s *)\nDefinition gen_pcps_getters : getter_kind := %s.\n" % (facts["pcps"][1], facts["pcps"][0])
+            + "(* %s *)\nDefinition gen_evt_getters : getter_kind := %s.\n" % (facts["evt"][1], facts["evt"][0]))
+
+
 def generate():
     return ("(* generated by gen/qubitization.py from %s and %s -- do not edit *)\n"
             "From Qib Require Import Qubitization.QubitModel.\n\n" % (F_PCPS, F_EVT)
